@@ -1,3 +1,3 @@
-/* fid: extra-empty-arg-accepted (fixed bf7cc8d); msg: too many arguments for macro 'F' */
+/* fid: extra-empty-arg-accepted (fixed 09a3a09); msg: too many arguments for macro 'F' */
 #define F(a) [a]
 int x = F(1,);
